@@ -366,7 +366,13 @@ pub struct Rendered {
     pub generated: Vec<String>,
 }
 
+/// `all_configs = false`: only the bare selection and the one with every optional fragment (every
+/// fragment's text is in one of the two).
 pub fn render(def: &Def) -> Result<Rendered, (String, String)> {
+    render_with(def, true)
+}
+
+pub fn render_with(def: &Def, all_configs: bool) -> Result<Rendered, (String, String)> {
     let display = catch_unwind(AssertUnwindSafe(|| def.to_string()))
         .map_err(|p| ("display-panic".to_owned(), vcommon::panic_message(&*p)))?;
     let max_size = catch_unwind(AssertUnwindSafe(|| def.max_size()))
@@ -375,6 +381,10 @@ pub fn render(def: &Def) -> Result<Rendered, (String, String)> {
         .map_err(|p| ("alignment-panic".to_owned(), vcommon::panic_message(&*p)))?;
     let mut generated = vec![];
     for (i, name) in CONFIGS.iter().enumerate() {
+        if !all_configs && i != 0 && i != 3 {
+            generated.push(String::new());
+            continue;
+        }
         let g = catch_unwind(AssertUnwindSafe(|| generate(def, &config(i))))
             .map_err(|p| (format!("generate-panic/{}", name), vcommon::panic_message(&*p)))?;
         generated.push(g);
@@ -439,7 +449,7 @@ pub fn c19(h: &[Step], ex: Executed, naming: Naming) -> (Vec<Violation>, u64) {
         .iter()
         .map(|v| v.iter().map(|d| (usize::from_str_radix(&d.id.to_string(), 10).unwrap_or(0), d.offset)).collect())
         .collect();
-    let r1 = build(ex).ok().and_then(|d| render(&d).ok());
+    let r1 = build(ex).ok().and_then(|d| render_with(&d, false).ok());
     let ex2 = execute(h, naming);
     if ex2.failure.is_some() {
         out.push(Violation::new("C19/second-run-failed", format!("the second replay of the same history failed ({})", text), case));
@@ -453,7 +463,7 @@ pub fn c19(h: &[Step], ex: Executed, naming: Naming) -> (Vec<Violation>, u64) {
         out.push(Violation::new("C19/offsets-differ", format!("two replays of the same history gave different lists/offsets: {:?} vs {:?} ({})", lists1, lists2, text), case));
         return (out, 0);
     }
-    let r2 = build(ex2).ok().and_then(|d| render(&d).ok());
+    let r2 = build(ex2).ok().and_then(|d| render_with(&d, false).ok());
     let mut digest = hash64(&(h, &lists1));
     match (r1, r2) {
         (Some(a), Some(b)) => {
